@@ -1,15 +1,33 @@
 /-
   Property C09 — every message a spec-following sender can produce is accepted.
-  Statements only; proofs in Saltpack/Proofs/AnyChunking.lean (+ PlanLemmas).
+  Statements only; proofs in Saltpack/Proofs/AnyChunking.lean (+ PlanLemmas),
+  RingEnc.lean / RingSig.lean (any keyring, any minor version, any header bytes)
+  and ExtrasRT.lean (the reference sender's bytes, end to end).
 
   The receivers are agnostic to everything the specifications leave to the
   sender or reserve for the future: chunk sizes (ANY valid chunk plan, not only
   the 1 MiB one the Go sender uses), the minor version, and extra trailing list
-  elements in headers, recipient pairs and payload packets.  The independent
-  reference sender of Saltpack/Model/Spec.lean (written from specs/*.md with its
-  own constants) exercises all of these against the real receivers on every run.
+  elements in headers, recipient pairs and payload packets.
+
+  Two layers of statements:
+
+  * `C09_accepts_{encryption,attached,detached,signcryption}` — packet level:
+    the sender is described relationally (the header fields of the code model's
+    sender under version `[major, minor]` for ANY `minor`; ANY header bytes `hb`
+    — a real sender hashes the header it sends, extras included, and the receiver
+    uses the bytes only through their hash; MAC keys / signatures / packets
+    computed from the hash of those bytes).  The code model's own senders
+    (`sealPacketsPlan`, `attachedPacketsPlan`, …: minor 0, `hb = encode h.toVal`)
+    are instances: `C09_accepts_*_model`.
+  * `C09_accepts_*_with_extras` — end to end on BYTES: what the independent
+    reference sender `Spec.encodePlan / attachedPlan / detached / signcryptPlan`
+    emits for options `o` (any minor, extras in header / recipient pairs /
+    packets) is split by the receiver's MessagePack reader (`Wire.split*`) and
+    accepted with the right result.
 -/
 import Saltpack.Proofs.AnyChunking
+import Saltpack.Proofs.ExtrasRT
+import Saltpack.Toy
 
 namespace Saltpack.Props.C09
 open Saltpack Saltpack.Encrypt Saltpack.Proofs Saltpack.Msgpack
@@ -20,11 +38,87 @@ theorem C09_go_plan_is_valid (v : Version) (hv : v = v1 ∨ v = v2) (bs : Nat) (
     ValidPlan v (chunkPlan v bs pt) :=
   chunkPlan_valid v hv bs hb pt
 
-/-- **Encryption, any chunking**: any cut of the plaintext into chunks with the
-    final marker on the last one (V1: empty terminator; V2: no empty chunk except
-    for the empty message) is opened to the concatenation of the chunks, with the
-    right sender and recipient attribution, at every recipient position. -/
+/-! ## encryption -/
+
+/-- **Encryption: any chunking, any minor version, any header bytes, any
+    keyring that holds a recipient's key.**
+    Sender: recipients `rs` passing `checkEncryptReceivers`; header fields `h0`
+    as `Encrypt.header` computes them, sent under version `[v.major, minor]` for
+    an ARBITRARY `minor`; header bytes `hb` ARBITRARY (whatever the sender put on
+    the wire and hashed — e.g. the header with extra trailing elements; the
+    typed view of those bytes is the header handed to the receiver); MAC keys and
+    payload packets computed from `hash hb` for any cut of the plaintext into
+    chunks with the final marker on the last one (V1: empty terminator; V2: no
+    empty chunk except for the empty message).
+    Receiver: `CheckKnownMajorVersion`, keyring `sks` holding the key of recipient
+    `i` among any other keys.
+    The message opens to the concatenation of the chunks, with the true sender,
+    as some recipient `i'` whose key `sk'` is in the ring (see
+    `C01_roundtrip_ring` for which one; `C09_accepts_encryption_unique` for
+    `i' = i`).
+    (Statement strengthened: formerly `sealPacketsPlan` — minor 0, canonical
+    header bytes — and the single-key ring; that form is
+    `C09_accepts_encryption_model`.) -/
 theorem C09_accepts_encryption (P : Prims) (hP : P.Lawful)
+    (v : Version) (hv : v = v1 ∨ v = v2) (minor : Int)
+    (sender : Option Bytes) (rs : List Recipient) (eph payloadKey : Bytes)
+    (plan : List (Bytes × Bool)) (hplan : ValidPlan v plan)
+    (hpk : payloadKey.length = 32)
+    (hnamed : ∀ s, sender = some s → P.boxPub s ≠ P.boxPub eph)
+    (hpub : ∀ r ∈ rs, r.hidden = false → r.pub ≠ [])
+    (sks : List Bytes) (i : Nat) (hi : i < rs.length) (sk : Bytes) (hmem : sk ∈ sks)
+    (hsk : (rs.getD i default).pub = P.boxPub sk)
+    (hns : RingNoSpuriousOpen P v eph payloadKey rs sks)
+    (hcr : checkReceivers rs = .ok ())
+    (h0 : EncHeader) (hhdr : header P v sender eph payloadKey rs = .ok h0)
+    (hb : Bytes) (mks : List Bytes) (blks : List EncBlock)
+    (hmk : macKeysSender P v (sender.getD eph) eph (P.hash hb) rs 0 = .ok mks)
+    (hblk : blockStructs P v payloadKey (P.hash hb) mks plan 0 = .ok blks) :
+    ∃ i' sk', i' < rs.length ∧ sk' ∈ sks ∧ (rs.getD i' default).pub = P.boxPub sk' ∧
+      Decrypt.openAll P knownMajor (faithfulKeyring P sks)
+          (.ok hb { h0 with version := ⟨v.major, minor⟩ }) ⟨blks.map some, .eof⟩ =
+        .ok ({ senderKey := P.boxPub (sender.getD eph), senderIsAnon := sender.isNone,
+               receiverKey := sk', receiverIsAnon := (rs.getD i' default).hidden,
+               namedReceivers := (rs.filter (fun r => !r.hidden)).map (·.pub),
+               numAnonReceivers := if (rs.getD i' default).hidden then (rs.filter (·.hidden)).length else 0 },
+             (plan.map (·.1)).flatten) := by
+  have hver : h0.version = v := (header_spec P hv sender eph payloadKey rs h0 hhdr).2.1
+  rw [← withMinor_eq h0 hver minor]
+  exact enc_roundtrip_ring P hP v hv minor sender rs eph payloadKey plan hplan.final hplan.empty_v1 hplan.empty_v2
+    hpk hnamed hpub sks i hi sk hmem hsk hns _ hb blks ⟨hcr, ⟨h0, hhdr, rfl⟩, mks, hmk, hblk⟩
+
+/-- …with the exact key information when the ring holds one recipient's key only -/
+theorem C09_accepts_encryption_unique (P : Prims) (hP : P.Lawful)
+    (v : Version) (hv : v = v1 ∨ v = v2) (minor : Int)
+    (sender : Option Bytes) (rs : List Recipient) (eph payloadKey : Bytes)
+    (plan : List (Bytes × Bool)) (hplan : ValidPlan v plan)
+    (hpk : payloadKey.length = 32)
+    (hnamed : ∀ s, sender = some s → P.boxPub s ≠ P.boxPub eph)
+    (hpub : ∀ r ∈ rs, r.hidden = false → r.pub ≠ [])
+    (sks : List Bytes) (i : Nat) (hi : i < rs.length) (sk : Bytes) (hmem : sk ∈ sks)
+    (hsk : (rs.getD i default).pub = P.boxPub sk)
+    (honly : ∀ s ∈ sks, ∀ j, j < rs.length → (rs.getD j default).pub = P.boxPub s → j = i ∧ s = sk)
+    (hns : RingNoSpuriousOpen P v eph payloadKey rs sks)
+    (hcr : checkReceivers rs = .ok ())
+    (h0 : EncHeader) (hhdr : header P v sender eph payloadKey rs = .ok h0)
+    (hb : Bytes) (mks : List Bytes) (blks : List EncBlock)
+    (hmk : macKeysSender P v (sender.getD eph) eph (P.hash hb) rs 0 = .ok mks)
+    (hblk : blockStructs P v payloadKey (P.hash hb) mks plan 0 = .ok blks) :
+    Decrypt.openAll P knownMajor (faithfulKeyring P sks)
+        (.ok hb { h0 with version := ⟨v.major, minor⟩ }) ⟨blks.map some, .eof⟩ =
+      .ok ({ senderKey := P.boxPub (sender.getD eph), senderIsAnon := sender.isNone,
+             receiverKey := sk, receiverIsAnon := (rs.getD i default).hidden,
+             namedReceivers := (rs.filter (fun r => !r.hidden)).map (·.pub),
+             numAnonReceivers := if (rs.getD i default).hidden then (rs.filter (·.hidden)).length else 0 },
+           (plan.map (·.1)).flatten) := by
+  have hver : h0.version = v := (header_spec P hv sender eph payloadKey rs h0 hhdr).2.1
+  rw [← withMinor_eq h0 hver minor]
+  exact enc_roundtrip_ring_unique P hP v hv minor sender rs eph payloadKey plan hplan.final hplan.empty_v1
+    hplan.empty_v2 hpk hnamed hpub sks i hi sk hmem hsk honly hns _ hb blks ⟨hcr, ⟨h0, hhdr, rfl⟩, mks, hmk, hblk⟩
+
+/-- the code model's own sender `sealPacketsPlan` (minor 0, canonical header
+    bytes) and the single-key ring: the previous form of `C09_accepts_encryption` -/
+theorem C09_accepts_encryption_model (P : Prims) (hP : P.Lawful)
     (v : Version) (hv : v = v1 ∨ v = v2)
     (sender : Option Bytes) (rs : List Recipient) (eph payloadKey : Bytes)
     (plan : List (Bytes × Bool)) (hplan : ValidPlan v plan)
@@ -41,8 +135,75 @@ theorem C09_accepts_encryption (P : Prims) (hP : P.Lawful)
       mki.senderKey = P.boxPub (sender.getD eph) ∧ mki.senderIsAnon = sender.isNone ∧ mki.receiverKey = sk :=
   enc_roundtrip_plan P hP v hv sender rs eph payloadKey plan hplan hpk hnamed hpub hblocks i hi sk hsk hns h hb blks hseal
 
-/-- **Attached signatures, any chunking and any minor version** -/
+/-- `Spec.encodePlan` taken apart: the header packet carries the encoding of
+    `Extras.encHeaderVal` (the header WITH its extras — these are the bytes that
+    are hashed), followed by the encoded packets -/
+theorem C09_spec_encryption_bytes (P : Prims) (layout : Nat) (o : Spec.Opts) (sender : Option Bytes)
+    (rs : List Recipient) (eph pk : Bytes) (pl : List (Bytes × Bool)) :
+    Spec.encodePlan P layout o sender rs eph pk pl =
+      headerPacket (encode (Extras.encHeaderVal P layout o sender rs eph pk)) ++
+        (pl.zipIdx.map (fun x => Extras.encPacketVal P layout o pk
+          (P.hash (encode (Extras.encHeaderVal P layout o sender rs eph pk)))
+          (rs.zipIdx.map (fun (r, i) => Spec.encMacKey P layout (sender.getD eph) eph r.pub
+            (P.hash (encode (Extras.encHeaderVal P layout o sender rs eph pk))) i)) x.2 x.1.1 x.1.2)).flatMap encode :=
+  Extras.encodePlan_eq P layout o sender rs eph pk pl
+
+/-- **Encryption END TO END with extras and any minor version**: the BYTES the
+    reference sender emits for options `o` — `SpecFollowing o`: genuine format
+    name, the layout's major version, the mode's number; everything else free:
+    `o.minor`, `o.headerExtras`, `o.recvExtras`, `o.packetExtras` (`ExtrasWF o`:
+    encodable values) — for any valid chunk plan, are split by the receiver's
+    MessagePack reader and opened by any keyring holding a recipient's key.
+    The header hash both sides use is the hash of the header bytes WITH extras.
+    Size hypotheses: everything fits MessagePack's 32-bit lengths. -/
+theorem C09_accepts_encryption_with_extras (P : Prims) (hP : P.Lawful) (v : Version) (hv : v = v1 ∨ v = v2)
+    (o : Spec.Opts) (ho : SpecFollowing o) (hx : ExtrasWF o)
+    (sender : Option Bytes) (rs : List Recipient) (eph payloadKey : Bytes)
+    (plan : List (Bytes × Bool)) (hplan : ValidPlan v plan)
+    (hcr : checkReceivers rs = .ok ())
+    (hpk : payloadKey.length = 32)
+    (hnamed : ∀ s, sender = some s → P.boxPub s ≠ P.boxPub eph)
+    (hpub : ∀ r ∈ rs, r.hidden = false → r.pub ≠ [])
+    (hpubLen : ∀ r ∈ rs, r.pub.length < 2 ^ 32)
+    (hchunks : ∀ p ∈ plan, p.1.length + 16 < 2 ^ 32) (hblocks : plan.length ≤ 2 ^ 64 - 1)
+    (hhb : (encode (Extras.encHeaderVal P (layoutOf v) o sender rs eph payloadKey)).length < 2 ^ 32)
+    (sks : List Bytes) (i : Nat) (hi : i < rs.length) (sk : Bytes) (hmem : sk ∈ sks)
+    (hsk : (rs.getD i default).pub = P.boxPub sk)
+    (hns : RingNoSpuriousOpen P v eph payloadKey rs sks) :
+    ∃ hr ps, Wire.splitEnc (Spec.encodePlan P (layoutOf v) o sender rs eph payloadKey plan) = .ok (hr, ps) ∧
+      ∃ i' sk', i' < rs.length ∧ sk' ∈ sks ∧ (rs.getD i' default).pub = P.boxPub sk' ∧
+        Decrypt.openAll P knownMajor (faithfulKeyring P sks) hr ps =
+          .ok ({ senderKey := P.boxPub (sender.getD eph), senderIsAnon := sender.isNone,
+                 receiverKey := sk', receiverIsAnon := (rs.getD i' default).hidden,
+                 namedReceivers := (rs.filter (fun r => !r.hidden)).map (·.pub),
+                 numAnonReceivers := if (rs.getD i' default).hidden then (rs.filter (·.hidden)).length else 0 },
+               (plan.map (·.1)).flatten) :=
+  spec_enc_accepted P hP v hv o ho hx sender rs eph payloadKey plan hplan hcr hpk hnamed hpub hpubLen hchunks hblocks
+    hhb sks i hi sk hmem hsk hns
+
+/-! ## attached signatures -/
+
+/-- **Attached signatures: any chunking, any minor version, any header bytes.**
+    Sender: header `Sign.header [v.major, minor] signerPub attached nonce` for an
+    ARBITRARY `minor`; header bytes `hb` ARBITRARY (hashed as sent); packets
+    signed over `hash hb`.
+    (Statement strengthened: formerly `attachedPacketsPlan`, i.e.
+    `hb = encode h.toVal`; that form is `C09_accepts_attached_model`.) -/
 theorem C09_accepts_attached (P : Prims) (hP : P.Lawful)
+    (v : Version) (hv : v = v1 ∨ v = v2) (minor : Int) (signer nonce : Bytes)
+    (plan : List (Bytes × Bool)) (hplan : ValidPlan v plan)
+    (kr : Keyring) (hk : kr.lookupSigningPublicKey (P.sigPub signer) = some (P.sigPub signer))
+    (hb : Bytes) (blks : List SigBlock)
+    (hblk : Sign.blockStructs P v signer (P.hash hb) plan 0 = .ok blks) :
+    Sign.verifyAll P knownMajor kr
+        (.ok hb (Sign.header ⟨v.major, minor⟩ (P.sigPub signer) mtAttached nonce)) ⟨blks.map some, .eof⟩ =
+      .ok (P.sigPub signer, (plan.map (·.1)).flatten) :=
+  sign_roundtrip_gen P hP v hv minor signer nonce plan hplan.final hplan.empty_v1 hplan.empty_v2 kr hk _ hb blks
+    ⟨rfl, hblk⟩
+
+/-- the code model's own sender `attachedPacketsPlan` (canonical header bytes):
+    the previous form of `C09_accepts_attached` -/
+theorem C09_accepts_attached_model (P : Prims) (hP : P.Lawful)
     (v : Version) (hv : v = v1 ∨ v = v2) (minor : Int) (signer nonce : Bytes)
     (plan : List (Bytes × Bool)) (hplan : ValidPlan v plan)
     (kr : Keyring) (hk : kr.lookupSigningPublicKey (P.sigPub signer) = some (P.sigPub signer))
@@ -52,8 +213,79 @@ theorem C09_accepts_attached (P : Prims) (hP : P.Lawful)
       .ok (P.sigPub signer, (plan.map (·.1)).flatten) :=
   sign_roundtrip_plan P hP v hv minor signer nonce plan hplan kr hk h hb blks hs
 
-/-- **Signcryption, any chunking** -/
-theorem C09_accepts_signcryption (P : Prims) (hP : P.Lawful)
+/-- **Attached signatures END TO END with extras and any minor version** (the
+    reference sender's bytes; cf. `C09_accepts_encryption_with_extras`) -/
+theorem C09_accepts_attached_with_extras (P : Prims) (hP : P.Lawful) (v : Version) (hv : v = v1 ∨ v = v2)
+    (o : Spec.Opts) (ho : SpecFollowing o) (hx : ExtrasWF o)
+    (signer nonce : Bytes) (plan : List (Bytes × Bool)) (hplan : ValidPlan v plan)
+    (hn : nonce.length < 2 ^ 32) (hchunks : ∀ p ∈ plan, p.1.length < 2 ^ 32)
+    (hhb : (encode (Extras.sigHeaderVal (layoutOf v) o Spec.sModeAttached (P.sigPub signer) nonce)).length < 2 ^ 32)
+    (kr : Keyring) (hk : kr.lookupSigningPublicKey (P.sigPub signer) = some (P.sigPub signer)) :
+    ∃ hr ps, Wire.splitSig (Spec.attachedPlan P (layoutOf v) o signer nonce plan) = .ok (hr, ps) ∧
+      Sign.verifyAll P knownMajor kr hr ps = .ok (P.sigPub signer, (plan.map (·.1)).flatten) :=
+  spec_sig_accepted P hP v hv o ho hx signer nonce plan hplan hn hchunks hhb kr hk
+
+/-! ## detached signatures -/
+
+/-- **Detached signatures: any minor version, any header bytes.**  A signature
+    over `hash(hash hb ‖ msg)` by `signer` verifies against `msg` under a header
+    `[v.major, minor]` for an ARBITRARY `minor`, whatever bytes `hb` carried the
+    header (e.g. with extra trailing elements). -/
+theorem C09_accepts_detached (P : Prims) (hP : P.Lawful)
+    (v : Version) (hv : v = v1 ∨ v = v2) (minor : Int) (signer nonce msg hb : Bytes)
+    (kr : Keyring) (hk : kr.lookupSigningPublicKey (P.sigPub signer) = some (P.sigPub signer)) :
+    Sign.verifyDetached P knownMajor kr
+        (.ok hb (Sign.header ⟨v.major, minor⟩ (P.sigPub signer) mtDetached nonce))
+        (.sig (P.sign signer (detachedSignatureInput P (P.hash hb) msg))) msg = .ok (P.sigPub signer) :=
+  detached_roundtrip_gen P hP v hv minor signer nonce msg hb kr hk
+
+/-- **Detached signatures END TO END with extras and any minor version**: the
+    reference sender's bytes split into header and signature object, and the
+    signature verifies against the message -/
+theorem C09_accepts_detached_with_extras (P : Prims) (hP : P.Lawful) (v : Version) (hv : v = v1 ∨ v = v2)
+    (o : Spec.Opts) (ho : SpecFollowing o) (hx : ExtrasWF o)
+    (signer nonce msg : Bytes) (hn : nonce.length < 2 ^ 32)
+    (hhb : (encode (Extras.sigHeaderVal (layoutOf v) o Spec.sModeDetached (P.sigPub signer) nonce)).length < 2 ^ 32)
+    (kr : Keyring) (hk : kr.lookupSigningPublicKey (P.sigPub signer) = some (P.sigPub signer)) :
+    ∃ hr sr, Wire.splitDetached (Spec.detached P (layoutOf v) o signer nonce msg) = .ok (hr, sr) ∧
+      Sign.verifyDetached P knownMajor kr hr sr msg = .ok (P.sigPub signer) :=
+  spec_detached_accepted P hP v hv o ho hx signer nonce msg hn hhb kr hk
+
+/-! ## signcryption -/
+
+/-- **Signcryption (box-key recipient): any chunking, any minor version, any
+    header bytes, any keyring that holds the recipient's key, with or without a
+    resolver.**  Sender: recipients passing `checkSigncryptReceivers`; the header
+    `Signcrypt.header` computes, sent under version `[2, minor]` for an ARBITRARY
+    `minor`; header bytes `hb` ARBITRARY; packets computed from `hash hb`.
+    `hnc`: up to position `i` a ring key's derived identifier equals a header
+    identifier only for the entry made for that key (cf. `C03_roundtrip_box_ring`).
+    (Statement strengthened: formerly `Signcrypt.sealPacketsPlan` and the
+    single-key ring; that form is `C09_accepts_signcryption_model`.) -/
+theorem C09_accepts_signcryption (P : Prims) (hP : P.Lawful) (minor : Int)
+    (sender : Option Bytes) (rs : List Signcrypt.Recipient) (eph payloadKey : Bytes)
+    (plan : List (Bytes × Bool)) (hplan : ValidPlan v2 plan)
+    (hpk : payloadKey.length = 32)
+    (hsender : ∀ s, sender = some s → ¬ ((P.sigPub s).all (· == 0)))
+    (hblocks : plan.length < 2 ^ 64 - 1)
+    (sks : List Bytes) (res : Signcrypt.Resolver)
+    (i : Nat) (hi : i < rs.length) (sk : Bytes) (hmem : sk ∈ sks) (hsk : rs.getD i default = .box (P.boxPub sk))
+    (hcr : Signcrypt.checkReceivers rs [] = .ok ())
+    (hb : Bytes) (blks : List SigncryptBlock)
+    (hblk : Signcrypt.blockStructs P sender payloadKey (P.hash hb) plan 0 = .ok blks)
+    (hnc : ∀ s ∈ sks, ∀ j, j ≤ i → j < rs.length →
+      Signcrypt.keyIdentifier P (Signcrypt.derivedKeyFromBoxKeys P (P.boxPub eph) s) j =
+        Decrypt.kidOf ((Signcrypt.header P sender eph payloadKey rs).receivers.getD j default) →
+      rs.getD j default = .box (P.boxPub s)) :
+    Signcrypt.openAll P (faithfulKeyring P sks) res
+        (.ok hb { Signcrypt.header P sender eph payloadKey rs with version := ⟨2, minor⟩ }) ⟨blks.map some, .eof⟩ =
+      .ok (sender.map P.sigPub, (plan.map (·.1)).flatten) :=
+  sc_roundtrip_box_ring P hP minor sender rs eph payloadKey plan hplan.final (hplan.empty_v2 rfl) hpk hsender hblocks
+    sks res i hi sk hmem hsk _ hb blks ⟨hcr, rfl, hblk⟩ hnc
+
+/-- the code model's own sender `Signcrypt.sealPacketsPlan` and the single-key
+    ring: the previous form of `C09_accepts_signcryption` -/
+theorem C09_accepts_signcryption_model (P : Prims) (hP : P.Lawful)
     (sender : Option Bytes) (rs : List Signcrypt.Recipient) (eph payloadKey : Bytes)
     (plan : List (Bytes × Bool)) (hplan : ValidPlan v2 plan)
     (hpk : payloadKey.length = 32)
@@ -68,7 +300,31 @@ theorem C09_accepts_signcryption (P : Prims) (hP : P.Lawful)
       .ok (sender.map P.sigPub, (plan.map (·.1)).flatten) :=
   sc_roundtrip_plan P hP sender rs eph payloadKey plan hplan hpk hsender hblocks i hi sk hsk h hb blks hseal hnc
 
-/-! ## forward compatibility -/
+/-- **Signcryption END TO END with extras and any minor version** (the reference
+    sender's bytes; cf. `C09_accepts_encryption_with_extras`) -/
+theorem C09_accepts_signcryption_with_extras (P : Prims) (hP : P.Lawful)
+    (o : Spec.Opts) (ho : SpecFollowing o) (hx : ExtrasWF o)
+    (sender : Option Bytes) (rs : List Signcrypt.Recipient) (eph payloadKey : Bytes)
+    (plan : List (Bytes × Bool)) (hplan : ValidPlan v2 plan)
+    (hcr : Signcrypt.checkReceivers rs [] = .ok ())
+    (hpk : payloadKey.length = 32)
+    (hsender : ∀ s, sender = some s → ¬ ((P.sigPub s).all (· == 0)))
+    (hidLen : ∀ key ident, Signcrypt.Recipient.sym key ident ∈ rs → ident.length < 2 ^ 32)
+    (hchunks : ∀ p ∈ plan, p.1.length + 80 < 2 ^ 32) (hblocks : plan.length < 2 ^ 64 - 1)
+    (hhb : (encode (Extras.scHeaderVal P o sender rs eph payloadKey)).length < 2 ^ 32)
+    (sks : List Bytes) (res : Signcrypt.Resolver)
+    (i : Nat) (hi : i < rs.length) (sk : Bytes) (hmem : sk ∈ sks) (hsk : rs.getD i default = .box (P.boxPub sk))
+    (hnc : ∀ s ∈ sks, ∀ j, j ≤ i → j < rs.length →
+      Signcrypt.keyIdentifier P (Signcrypt.derivedKeyFromBoxKeys P (P.boxPub eph) s) j =
+        Decrypt.kidOf ((Signcrypt.header P sender eph payloadKey rs).receivers.getD j default) →
+      rs.getD j default = .box (P.boxPub s)) :
+    ∃ hr ps, Wire.splitSigncrypt (Spec.signcryptPlan P o sender rs eph payloadKey plan) = .ok (hr, ps) ∧
+      Signcrypt.openAll P (faithfulKeyring P sks) res hr ps =
+        .ok (sender.map P.sigPub, (plan.map (·.1)).flatten) :=
+  spec_signcrypt_accepted P hP o ho hx sender rs eph payloadKey plan hplan hcr hpk hsender hidLen hchunks hblocks hhb
+    sks res i hi sk hmem hsk hnc
+
+/-! ## forward compatibility, view level -/
 
 /-- minor versions newer than the library knows: the shipped validator looks at
     the major version only -/
@@ -109,8 +365,80 @@ theorem C09_packet_extras (auths : List Bytes) (ct sig chunk : Bytes) (f : Bool)
   ⟨viewEncBlock_v2_extras auths ct f ex ha hl, viewEncBlock_v1_extras auths ct ex ha hl,
    viewSigncryptBlock_extras ct f ex, viewSigBlock_v2_extras sig chunk f ex, viewSigBlock_v1_extras sig chunk ex⟩
 
-/-! ## non-vacuity: one-byte chunks are a valid plan -/
+/-! ## non-vacuity -/
+
+/-- one-byte chunks are a valid plan -/
 example : ValidPlan v2 [([1], false), ([2], false), ([3], true)] :=
   ⟨⟨[([1], false), ([2], false)], [3], rfl, by decide⟩, by decide, by decide⟩
+
+/-- options with minor version 7 and extras everywhere -/
+def toyOpts : Spec.Opts :=
+  { minor := 7, headerExtras := [.int 1, .str [120]], recvExtras := [.nil], packetExtras := [.bool true, .int (-3)] }
+
+theorem toyOpts_following : SpecFollowing toyOpts := ⟨rfl, rfl, rfl⟩
+
+theorem toyOpts_wf : ExtrasWF toyOpts := by
+  refine ⟨?_, by decide, ?_, by decide, ?_, by decide, by decide, by decide⟩
+  · intro x hx
+    have : x = .int 1 ∨ x = .str [120] := by simpa [toyOpts] using hx
+    rcases this with rfl | rfl
+    · exact ValWF.int _ (by decide) (by decide)
+    · exact ValWF.str _ (by decide)
+  · intro x hx
+    have : x = .nil := by simpa [toyOpts] using hx
+    subst this
+    exact ValWF.nil
+  · intro x hx
+    have : x = .bool true ∨ x = .int (-3) := by simpa [toyOpts] using hx
+    rcases this with rfl | rfl
+    · exact ValWF.bool _
+    · exact ValWF.int _ (by decide) (by decide)
+
+/-- **`C09_accepts_attached_with_extras` instantiated** (toy primitives, V2,
+    minor version 7, extras in header and packets, one-byte chunks): the
+    reference sender's bytes split and verify to the message `[1, 2, 3]` -/
+example (kr : Keyring) (hk : kr.lookupSigningPublicKey (Toy.prims.sigPub [5]) = some (Toy.prims.sigPub [5])) :
+    ∃ hr ps, Wire.splitSig (Spec.attachedPlan Toy.prims 2 toyOpts [5] (zeros 16)
+        [([1], false), ([2], false), ([3], true)]) = .ok (hr, ps) ∧
+      Sign.verifyAll Toy.prims knownMajor kr hr ps = .ok (Toy.prims.sigPub [5], [1, 2, 3]) :=
+  C09_accepts_attached_with_extras Toy.prims Toy.lawful v2 (Or.inr rfl) toyOpts toyOpts_following toyOpts_wf
+    [5] (zeros 16) [([1], false), ([2], false), ([3], true)]
+    ⟨⟨[([1], false), ([2], false)], [3], rfl, by decide⟩, by decide, by decide⟩
+    (by decide) (by decide) (by decide +kernel) kr hk
+
+/-- toy recipients: a hidden one, then a visible one -/
+def toyRs : List Recipient := [⟨Toy.prims.boxPub [4], true⟩, ⟨Toy.prims.boxPub [3], false⟩]
+
+/-- **`C09_accepts_encryption_with_extras` instantiated** (toy primitives, V2,
+    minor version 7, extras in header, recipient pairs and packets, one-byte
+    chunks, a ring with a foreign key before the recipient's key): the reference
+    sender's bytes split and open to `[1, 2, 3]` with the sender `[1]` -/
+example : ∃ hr ps, Wire.splitEnc (Spec.encodePlan Toy.prims 2 toyOpts (some [1]) toyRs [2] (Toy.pad 32 [9])
+        [([1], false), ([2], false), ([3], true)]) = .ok (hr, ps) ∧
+      ∃ mki, Decrypt.openAll Toy.prims knownMajor (faithfulKeyring Toy.prims [[7], [3]]) hr ps =
+        .ok (mki, [1, 2, 3]) ∧ mki.senderKey = Toy.prims.boxPub [1] := by
+  obtain ⟨hr, ps, hsplit, i', sk', _, _, _, hopen⟩ :=
+    C09_accepts_encryption_with_extras Toy.prims Toy.lawful v2 (Or.inr rfl) toyOpts toyOpts_following toyOpts_wf
+      (some [1]) toyRs [2] (Toy.pad 32 [9]) [([1], false), ([2], false), ([3], true)]
+      ⟨⟨[([1], false), ([2], false)], [3], rfl, by decide⟩, by decide, by decide⟩
+      (by decide) (by decide) (by intro s hs; cases hs; decide) (by decide) (by decide) (by decide) (by decide)
+      (by decide +kernel) [[7], [3]] 1 (by decide) [3] (by decide) (by decide)
+      (by
+        apply RingNoSpuriousOpen.of_foreign
+        intro s hs j hj hhid hne n hn
+        have hs' : s = [7] ∨ s = [3] := by simpa using hs
+        have hj' : j = 0 ∨ j = 1 := by
+          have : j < 2 := hj
+          omega
+        have hn' : n = Nonce.payloadKeyBoxV2 j := by
+          simp only [Nonce.payloadKeyBox, show v2.major = 2 from rfl, show ¬ ((2 : Int) = 1) by decide,
+            if_true, if_false, Except.ok.injEq] at hn
+          exact hn.symm
+        subst hn'
+        rcases hs' with rfl | rfl <;> rcases hj' with rfl | rfl <;>
+          first
+            | decide
+            | exact absurd hhid (by decide))
+  exact ⟨hr, ps, hsplit, _, hopen, rfl⟩
 
 end Saltpack.Props.C09
